@@ -88,6 +88,8 @@ def bits_eval(e, env, width):
         return [(c >> i) & 1 for i in range(width)]
     if e["k"] == "DeclRefExpr" and e["ref"]["id"] in env:
         v = env[e["ref"]["id"]]
+        if v is None:
+            return None
         if isinstance(v, int):
             return [(v >> i) & 1 for i in range(width)]
         return list(v)
